@@ -36,6 +36,13 @@ line = {"op": "reverse", "d1": {"Q": ["q1", "trap1"], "S": ["a"], "T": [["q1", "
         "d2": {"Q": ["t0"], "S": ["a"], "T": [["t0", "a", "t0"]], "q0": "t0", "F": [], "eps": "~none~"},
         "res": {"Q": ["q1", "trap1", "q2"], "S": ["a"], "T": [["trap1", "a", "q1"], ["q1", "a", "trap1"], ["q2", "eps", "q1"]], "q0": "q2", "F": ["q1"], "eps": "eps"}}
 out += [e for e in dfaops_replay.replay_line(line) if e["op"] == "sched_replay"]
+from harness.props import c16
+out += list(c16._events({"kind": "pda_rnd", "seed": 5, "eps": "e"}))[:1]
+out += list(c16._events({"kind": "tm_rnd", "seed": 7}))[:1]
+from harness import parser_replay
+pl = {"kind": "tm", "lines": [{"k": "initial", "t": ["p"]}, {"k": "kw", "t": ["accept", "x-1"]},
+      {"k": "tr", "t": ["p", "p", ["ok", False, "a", "B", "R"]]}], "err": "bad_state_label", "result": {"Q": []}}
+out += [e for e in parser_replay.replay_line(pl) if e["op"] == "parser_replay"]
 print(json.dumps(out))
 ''' % common.VERIF
     p = subprocess.run([common.PY, "-c", code], env=common.worker_env(0), stdout=subprocess.PIPE,
@@ -84,6 +91,13 @@ def corrupt(e):
         del c["pops"][0]                     # one hook event removed
     elif op == "rip_trace":
         del c["rips"][0]                     # one hook event removed
+    elif op == "roundtrip":
+        tr = [i for i, l in enumerate(c.get("plines", [])) if l["k"] == "tr"]
+        if not tr:
+            return None
+        del c["plines"][tr[-1]]              # the printer forgot one edge line
+    elif op == "parser_replay":
+        c["exc"] = "none"                    # the parser accepted what the model rejects
     elif op == "iso":
         c["res"] = not c["res"]
     elif op == "iso_trace":
